@@ -131,7 +131,7 @@ def config_charges(ttns):
 def leak(ttns, charges, sector):
     v = np.asarray(T.dense(ttns)).ravel()
     out = np.any(charges != np.array(sector).reshape(1, -1), axis=1)
-    return float(np.linalg.norm(v[out]) / max(1.0, np.linalg.norm(v))), float(np.linalg.norm(v))
+    return float(np.linalg.norm(v[out]) / (np.linalg.norm(v) or 1.0)), float(np.linalg.norm(v))
 
 
 def export_tree(ttns):
